@@ -15,6 +15,7 @@ git apply "$seed/patch.diff" || { echo "{\"id\":\"$id\",\"error\":\"patch does n
 build=ok; go build ./common/... ./handlers/... ./metrics/... ./orcas/... ./protocol/... ./server/... ./timer/... >/dev/null 2>&1 || build=FAIL
 for f in app/memproxy.go app/memcached_cluster_proxy.go; do go build -o /dev/null ./$f >/dev/null 2>&1 || build=FAIL; done
 tests=ok; go test -vet=off -count=1 $PK > $wt/.existing.log 2>&1 || tests=FAIL
+mkdir -p $dest
 for f in "$seed"/*_test.go; do b=$(basename $f); case $b in zz_*) cp $f $dest/$b;; *) cp $f $dest/zz_$b;; esac; done
 with=PASS; timeout 1500 go test $RACE -vet=off -count=1 -run "$re" ./$dest/ > $wt/.with.log 2>&1 || with=FAIL
 git checkout -q -- . 
